@@ -87,6 +87,7 @@ def run_one(seed, i, tier):
     res = {"viol": None, "steps": n + 1, "probes": {"warmup_other_type": int(any(v != probe[1] for _, v in hist)),
                                                     "numpy_present": int("np1d" in pool), "fresh_fork_truths": 1},
            "faults": {"restart": 1}, "stats": {"ops": n + 1}}
+    res["logd"] = digest([hist, probe, got, expected])
     if any(v != probe[1] for _, v in hist):
         res["sig"] = digest([probe, hist])
     if i % 499 == 0:
